@@ -64,4 +64,26 @@ CHECKS = {
         "assumptions": ["integer settings with 1 <= base < limit (then 0 < k1; for real-valued settings k1 > 0 needs (2B)^2 < L^3, see C09_k1_pos_real_refuted)",
                         "the floating-point slack clause of the property is checked pointwise, not proved"],
     },
+    "C17": {
+        "suites": [{"suite": "net", "n_quick": 400, "n_thorough": 20000, "shards": 8, "shards_thorough": 16}],
+        "monitor_props": ["C17"],
+        "rule": "net suite: the real Neighborhood with a scripted SenderCreator over sequences of AddTargets (valid, malformed, foreign-network, self, duplicates), Incentive and Synchronize rounds with maximum sizes 0..8, seeds, unreachable subsets and (one case in six) DNS names that resolve to another peer or to the host itself; every round's selected set must be an admissible result of the model's selection (membership, since the cut bucket is shuffled) and every fan-out list must equal the model's; distinct by (max, seeds, aliasing, operation pattern)",
+        "trusted_base": ["net.SplitHostPort and DNS/dial (SenderCreator) are oracles: tables recorded from the run", "math/rand shuffle of the cut bucket: the model's perm input; the check is membership in the admissible set"],
+        "assumptions": ["maximum outbound count >= 0 (a negative configured maximum panics at neighborhood.go:123)",
+                        "distinct / never-self are about sender targets and hold when target resolution is injective and does not map to the host (C17_alias_refuted shows the aliasing case: known finding)"],
+    },
+    "C18": {
+        "suites": [{"suite": "wallet", "n_quick": 240, "n_thorough": 6000, "shards": 8, "shards_thorough": 16}],
+        "monitor_props": ["C18"],
+        "rule": "wallet suite: the real InfoController over httptest, its Sender backed by a real validator whose wallet holds 1..300 outputs (equal values, zero-valued, yielding or not); amounts 0, balance-fee, just above, one output exactly, beyond, random; both consolidation modes; clock anywhere in the slot; the answer is compared with the model's tx_info and the transaction built from it is submitted to the real pool and a block is produced; distinct by (amount kind, mode, holdings, status)",
+        "trusted_base": ["Utxo.Value (binary64) is an oracle: the holdings' values at the next block time are recorded from the run", "net/http, gin and strconv.Atoi are outside the model"],
+        "assumptions": ["no uint64 wrap: total holdings < 2^64 and amount + fee < 2^64 (a negative value= parameter wraps: noted in DESIGN.md)"],
+    },
+    "C19": {
+        "suites": [{"suite": "views", "n_quick": 240, "n_thorough": 6000, "shards": 8, "shards_thorough": 16}],
+        "monitor_props": ["C19"],
+        "rule": "views suite: the real AmountController and ProgressController over httptest, their Sender backed by a live validator walked through a transaction's life (unknown, pooled, in the tip block, confirmed, spent again) or failing at one chosen step (utxos, first-block timestamp, blocks, pool, undecodable body); distinct by (stage, injected fault, outcome)",
+        "trusted_base": ["the final float64 division of the balance and JSON formatting are recomputed by the harness with math/big, not modelled"],
+        "assumptions": ["the balance is the uint64 (wrapping) sum; equal to the exact sum below 2^64"],
+    },
 }
